@@ -226,7 +226,7 @@ package httpserver
 //@   loop 1 invariant (t.matchHost(H()) == nil && branch == nil) ==> forall(i, 0, #i, br(i) == nil)
 //@   loop 1 invariant (t.matchHost(H()) == nil && branch != nil) ==> exists(j, 0, #i, branch == br(j) && forall(i, 0, j, br(i) == nil))
 
-//@ unit serve_http_routing props=C01,C06 filter=`httpserver\.Server\)\.serveHTTP$`
+//@ unit serve_http_routing props=C01,C06,C12 filter=`httpserver\.Server\)\.serveHTTP$`
 //@ ghost chainCalls int
 //@ ghost notFound int
 //@ extern invoke:(github.com/tmpim/casket/caskethttp/httpserver.Handler).ServeHTTP
